@@ -8,13 +8,29 @@ A, B, C_, NL, Z = R.lit('a'), R.lit('b'), R.lit('c'), R.lit(10), R.lit(0)
 TABLES = ["-Cem", "-Cm", "-Ce", "-C", "-Cf", "-Cfe", "-CF", "-CFe"]
 
 
+class _RuleSets(dict):
+    """Named rule sets, plus the parametric family 'chain:N' - a{N} and three small rules: the number of DFA states, and with it the
+    largest entry of the state-valued tables, grows by one with N, so a sweep of N walks the largest entry across the 8-bit limit of
+    the serialized element width (127 / 128: round-4 seed C13-r4m3)."""
+    def __missing__(self, name):
+        if name.startswith("chain:"):
+            n = int(name.split(":")[1])
+            return [(R.rep(A, n, n),), (R.plus(B),), (NL,), (C_,)]
+        raise KeyError(name)
+
+
+def chain_inputs(name):
+    n = int(name.split(":")[1])
+    return [b"a" * n, b"a" * (n - 1) + b"b", b"a" * (n + 1) + b"\n", b"b" + b"a" * n + b"ca", b"a" * (2 * n) + b"bb"]
+
+
 def rule_sets():
-    return {
+    return _RuleSets({
         "kw": [(R.cat(A, B),), (R.cat(A, B, B, B),), (R.plus(A),), (B,), (NL,), (R.plus(R.cset(b"c")), dict(bol=True))],
         "trail": [(R.plus(A), dict(trail=B)), (R.cat(A, B), dict(eol=True)), (A,), (B,), (NL,), (C_,)],
         "nul": [(Z,), (R.cat(A, Z, B),), (R.plus(R.cset(b"a\0")),), (B,), (NL,), (C_,)],
         "vartrail": [(R.plus(R.cset(b"ab")), dict(trail=R.cat(R.plus(C_), NL))), (A,), (B,), (C_,), (NL,)],
-    }
+    })
 
 
 INPUTS = [b"", b"ab", b"abbb\naab", b"abba\ncc\nc", b"a\0b\0\0ab", b"abcc\nab\n", b"aab\nabb\nccab", b"ba\n\nab\n"]
@@ -105,8 +121,13 @@ def build_scanner(args):
 
 def run_exe(wd, argv, timeout=300):
     env = dict(H.ENV, ASAN_OPTIONS="detect_leaks=0")
-    p = subprocess.run([os.path.join(wd, "s.exe")] + argv, cwd=wd, env=env, stdin=subprocess.DEVNULL, stdout=subprocess.PIPE,
-                       stderr=subprocess.PIPE, timeout=timeout)
+    if argv and argv[0] == "scan":
+        timeout = min(timeout, 30)          # a scan of a few hundred bytes takes milliseconds; a scanner that loops is reported, not waited for
+    try:
+        p = subprocess.run([os.path.join(wd, "s.exe")] + argv, cwd=wd, env=env, stdin=subprocess.DEVNULL, stdout=subprocess.PIPE,
+                           stderr=subprocess.PIPE, timeout=timeout)
+    except subprocess.TimeoutExpired as e:
+        return -999, (e.stdout or b"").decode("latin-1"), "no result after %d s (the scanner loops) " % timeout + (e.stderr or b"").decode("latin-1")[-200:]
     return p.returncode, p.stdout.decode("latin-1"), p.stderr.decode("latin-1")
 
 
@@ -157,7 +178,7 @@ def scenario(args):
         # (2) round trip: behaviour after yytables_fload equals the reference, everything released afterwards
         pack = make_pack(rs, extra_opts)
         n = 0
-        for inp in INPUTS:
+        for inp in (chain_inputs(rs) + INPUTS[1:3] if rs.startswith("chain:") else INPUTS):
             rc, out, err = run_exe(wd, ["scan", "t.tables", inp.hex()])
             n += 1
             lines = out.splitlines()
@@ -347,6 +368,12 @@ def concat_scenario(args):
     return res
 
 
+def boundary_jobs(quick):
+    """chain:N for N around the point where the number of DFA states (largest entry of yy_nxt / yy_chk / yy_def) crosses 127/128"""
+    ns = range(118, 135) if quick else range(100, 150)
+    return [("chain:%d" % n, tb, "NR", [], False, False) for n in ns for tb in (("-Cf", "-Cem") if quick else ("-Cf", "-Cfe", "-CF", "-Cem", "-C"))]
+
+
 def run(tier):
     ck = Check("C15", tier, "model_checking")
     ck.flex()
@@ -363,6 +390,7 @@ def run(tier):
         jobs.append(("trail", tb, "NR", ["yylineno"], True, not quick))
     for tb in ("-Cf", "-CFe"):
         jobs.append(("trail", tb, "R", ["yylineno"], True, not quick))
+    jobs += boundary_jobs(quick)
     cjobs = [(tb, api) for tb in (("-Cem", "-Cf", "-CFe") if quick else TABLES) for api in ("NR", "R")]
     tot = {}
     nscen = 0
